@@ -489,6 +489,14 @@ var opNames = []string{
 	"simplify", "centroid", "hull", "pos", "env", "boundary", "setop", "interp",
 }
 
+// otherCT is a coordinate type different from ct (used to refill a slice that was handed to a constructor).
+func otherCT(ct geom.CoordinatesType) geom.CoordinatesType {
+	if ct == geom.DimXY {
+		return geom.DimXYZ
+	}
+	return geom.DimXY
+}
+
 func protect(f func() (geom.Geometry, error)) (g geom.Geometry, status string) {
 	defer func() {
 		if e := recover(); e != nil {
@@ -696,24 +704,41 @@ func step(r *lib.Rng, g geom.Geometry, class string, opCount map[string]int) *st
 				rs[i] = rs[i].ForceCoordinatesType(cts[i])
 			}
 			out.res = geom.NewPolygon(rs).AsGeometry()
+			// the caller reuses its slice for the next geometry (a constructor must not retain it)
+			for i := range rs {
+				rs[i] = rs[i].ForceCoordinatesType(otherCT(out.res.CoordinatesType()))
+			}
+			_ = geom.NewPolygon(rs)
 		case geom.TypeMultiPoint:
 			ps := g.MustAsMultiPoint().Dump()
 			for i := range ps {
 				ps[i] = ps[i].ForceCoordinatesType(cts[i])
 			}
 			out.res = geom.NewMultiPoint(ps).AsGeometry()
+			for i := range ps {
+				ps[i] = ps[i].ForceCoordinatesType(otherCT(out.res.CoordinatesType()))
+			}
+			_ = geom.NewMultiPoint(ps)
 		case geom.TypeMultiLineString:
 			ls := g.MustAsMultiLineString().Dump()
 			for i := range ls {
 				ls[i] = ls[i].ForceCoordinatesType(cts[i])
 			}
 			out.res = geom.NewMultiLineString(ls).AsGeometry()
+			for i := range ls {
+				ls[i] = ls[i].ForceCoordinatesType(otherCT(out.res.CoordinatesType()))
+			}
+			_ = geom.NewMultiLineString(ls)
 		case geom.TypeMultiPolygon:
 			ps := g.MustAsMultiPolygon().Dump()
 			for i := range ps {
 				ps[i] = ps[i].ForceCoordinatesType(cts[i])
 			}
 			out.res = geom.NewMultiPolygon(ps).AsGeometry()
+			for i := range ps {
+				ps[i] = ps[i].ForceCoordinatesType(otherCT(out.res.CoordinatesType()))
+			}
+			_ = geom.NewMultiPolygon(ps)
 		default:
 			gc := g.MustAsGeometryCollection()
 			gs := make([]geom.Geometry, n)
@@ -721,6 +746,10 @@ func step(r *lib.Rng, g geom.Geometry, class string, opCount map[string]int) *st
 				gs[i] = gc.GeometryN(i).ForceCoordinatesType(cts[i])
 			}
 			out.res = geom.NewGeometryCollection(gs).AsGeometry()
+			for i := range gs {
+				gs[i] = gs[i].ForceCoordinatesType(otherCT(out.res.CoordinatesType()))
+			}
+			_ = geom.NewGeometryCollection(gs)
 		}
 		out.ok = true
 	case "wkb":
